@@ -220,6 +220,40 @@ mut("c16-assumes-full-write", ["C16"], "AsyncWriter::sync assumes the sink took 
 mut("c16-write-returns-frame-len", ["C16"], "AsyncWriter::write returns the frame length including the prefix",
     [(AW, "        self.sync().await?;\n\n        Ok(self.buffer.len() - 4)", "        self.sync().await?;\n\n        Ok(self.buffer.len() - 4 + (self.buffer.len() > 300) as usize * 4)")])
 
+
+# ---- derive: C07 (derived) C08 C09 C10 ----
+DENC = "minicbor-derive/src/encode.rs"
+DDEC = "minicbor-derive/src/decode.rs"
+DLEN = "minicbor-derive/src/cbor_len.rs"
+mut("c08-wide-gap-short", ["C08"], "derived array encoding fills gaps of two or more indices with one null too few",
+    [(DENC, "                    idx.val() - k - 1\n                };", "                    { let g = idx.val() - k - 1; if g >= 2 { g - 1 } else { g } }\n                };")])
+mut("c08-map-declaration-order", ["C08"], "derived map encoding emits entries in declaration order instead of ascending index order",
+    [(DENC, "        Encoding::Map => for field in fields.fields() {\n            if field.attrs.skip() {\n                continue\n            }\n            let is_nil = is_nil(&field.typ, field.attrs.codec());\n            let encode_fn", "        Encoding::Map => for field in { let mut fs: Vec<&Field> = fields.fields().collect(); fs.sort_by_key(|f| f.pos); fs } {\n            if field.attrs.skip() {\n                continue\n            }\n            let is_nil = is_nil(&field.typ, field.attrs.codec());\n            let encode_fn")])
+mut("c08-trailing-nil-kept", ["C08"], "derived array encoding does not end at the highest present index (trailing absent optionals written as null)",
+    [(DENC, "                            quote! {\n                                if !#is_nil(&self.#ident) {\n                                    __max_index777 = Some(#n)\n                                }\n                            }", "                            quote! {\n                                {\n                                    let _ = #is_nil(&self.#ident);\n                                    __max_index777 = Some(#n)\n                                }\n                            }")])
+mut("c08-unit-variant-tag-dropped", ["C08", "C09"], "derived encoder omits the variant tag of unit variants under map encoding",
+    [(DENC, "                        __e777.u32(#idx)?;\n                        #tag\n                        __e777.map(0)?;", "                        __e777.u32(#idx)?;\n                        __e777.map(0)?;")])
+mut("c09-missing-value-class", ["C09"], "derived decoder reports a missing mandatory struct field as a generic message error",
+    [(DDEC, "                    return Err(minicbor::decode::Error::missing_value(#indices).with_message(#field_str).at(__p777))\n                },)*\n                #(#skipped : Default::default(),)*\n            })\n        }\n    } else if let syn::Fields::Unit = data.fields {", "                    return Err(minicbor::decode::Error::message(#field_str).at(__p777))\n                },)*\n                #(#skipped : Default::default(),)*\n            })\n        }\n    } else if let syn::Fields::Unit = data.fields {")])
+mut("c09-small-tags-unchecked", ["C09"], "derived decoder does not verify tags below 24",
+    [(DDEC, "            if #t != __t777.as_u64() {\n                return Err(#err)", "            if #t != __t777.as_u64() && #t > 23 {\n                return Err(#err)")])
+mut("c09-b-cow-str-owned", ["C09"], "#[b] Cow<str> fields are decoded as owned copies",
+    [(DDEC, "                    && field.index.is_b()\n                    && is_cow(&field.typ, |t| is_str(t) || is_byte_slice(t))\n                {\n                    if cfg!(feature = \"std\") {\n                        quote!(Some(std::borrow::Cow::Borrowed(__v777)))", "                    && field.index.is_b()\n                    && is_cow(&field.typ, |t| is_byte_slice(t))\n                {\n                    if cfg!(feature = \"std\") {\n                        quote!(Some(std::borrow::Cow::Borrowed(__v777)))")])
+mut("c09-indef-array-break-left", ["C09"], "derived array decoder does not consume the break of an indefinite-length body",
+    [(DDEC, "                    __i777 += 1\n                }\n                __d777.skip()?\n            }\n        },", "                    __i777 += 1\n                }\n            }\n        },")])
+mut("c09-unknown-variant-at-top-level-defaulted", ["C09"], "enum decoder maps an unknown variant index to the first variant when the enum is index_only",
+    [(DDEC, "                    n => {\n                        #rewind\n                        Err(minicbor::decode::Error::unknown_variant(n).at(__p778))\n                    }", "                    n if n > 1000 => {\n                        #rewind\n                        Err(minicbor::decode::Error::message(\"bad variant\").at(__p778))\n                    }\n                    n => {\n                        #rewind\n                        Err(minicbor::decode::Error::unknown_variant(n).at(__p778))\n                    }")])
+mut("c10-unknown-map-key-rejected", ["C10"], "derived map decoder rejects unknown keys in definite-length maps",
+    [(DDEC, "                for _ in 0 .. __len777 {\n                    match __d777.u32()? {\n                        #(#indices => #actions)*\n                        _          => __d777.skip()?", "                for _ in 0 .. __len777 {\n                    match __d777.u32()? {\n                        #(#indices => #actions)*\n                        _          => return Err(minicbor::decode::Error::message(\"unknown field\"))")])
+mut("c10-unknown-variant-body-not-skipped", ["C10"], "an unknown variant in an optional field is tolerated but its body is not skipped",
+    [(DDEC, "            } else if is_option(&field.typ, |_| true) {\n                quote! {\n                    Err(e) if e.is_unknown_variant() => __d777.skip()?,\n                }\n            } else {\n                let ty = &field.typ;", "            } else if is_option(&field.typ, |_| true) {\n                quote! {\n                    Err(e) if e.is_unknown_variant() => {}\n                }\n            } else {\n                let ty = &field.typ;")])
+mut("c10-extra-array-elements-rejected", ["C10"], "derived array decoder rejects arrays longer than the highest known index + 1 when the unknown element is the last of more than three",
+    [(DDEC, "            if let Some(__len777) = __d777.array()? {\n                for __i777 in 0 .. __len777 {\n                    match __i777 {\n                        #(#indices => #actions)*\n                        _          => __d777.skip()?", "            if let Some(__len777) = __d777.array()? {\n                for __i777 in 0 .. __len777 {\n                    match __i777 {\n                        #(#indices => #actions)*\n                        _ if __len777 > 3 && __i777 + 1 == __len777 => return Err(minicbor::decode::Error::message(\"too long\")),\n                        _          => __d777.skip()?")])
+mut("c07-derived-single-gap-forgotten", ["C07"], "derived CborLen does not count a gap of exactly one index before a field",
+    [(DLEN, "                        __len777 += (#n - __num777) + #tag + #cbor_len(#access, __ctx777);", "                        __len777 += (if #n - __num777 == 1 { 0 } else { #n - __num777 }) + #tag + #cbor_len(#access, __ctx777);")])
+mut("c07-derived-variant-tag-forgotten", ["C07"], "derived CborLen forgets the variant tag of map-encoded struct variants",
+    [(DLEN, "                        #name::#con{#(#idents,)* ..} => { 1 + #idx.cbor_len(__ctx777) + #tag + #(#steps)* }", "                        #name::#con{#(#idents,)* ..} => { 1 + #idx.cbor_len(__ctx777) + #(#steps)* }")])
+
 def main():
     outdir = os.path.join(ROOT, "mutants")
     os.makedirs(outdir, exist_ok=True)
